@@ -18,7 +18,7 @@ impl Scenario for C20S {
         }
     }
     fn rule(&self) -> &'static str {
-        "case = 1..32 receivers converted with to_stream from 1..8 threads, 0..50 messages per channel queued before the conversion and more sent afterwards (with virtual delays), senders dropped or held, consumers using futures::executor::block_on or polling by hand with a counting waker and parking, some streams dropped early; EINTR / short batches in the routing thread's wait; seeded schedule; non-trivial = >=2 streams and (messages queued before conversion or >=2 converting threads); distinct = distinct (workload, schedule hash)"
+        "case = 1..32 receivers converted with to_stream from 1..8 threads, 0..50 messages per channel queued before the conversion and more sent afterwards (with virtual delays), senders dropped or held or living in sim-processes that die at the k-th system call of their last send, consumers using futures::executor::block_on or polling by hand with a counting waker and parking, some streams dropped early; EINTR / short batches in the routing thread's wait; seeded schedule; non-trivial = >=2 streams and (messages queued before conversion or >=2 converting threads); distinct = distinct (workload, schedule hash)"
     }
     fn gen(&self, seed: u64, idx: u64, _tier: Tier, _variant: &str) -> Value {
         let mut r = Rng::stream(seed, idx.wrapping_mul(2654435761).wrapping_add(0xC20));
@@ -48,6 +48,7 @@ impl Scenario for C20S {
                     "consumer": *r.pick(&["block_on", "block_on", "manual"]),
                     "drop_after": if r.chance(1, 8) { json!(r.below(3)) } else { Value::Null },
                     "thread": r.below(nthreads), "big": r.chance(1, 10) && !many,
+                    "proc": n <= 12 && r.chance(1, 5), "crash_at": if r.chance(1, 2) { json!(r.below(9)) } else { Value::Null },
                 })
             })
             .collect();
@@ -166,7 +167,19 @@ mod imp {
                     hist::log("to_stream.inv", route as i64, 0, 0, "");
                     let mut st = rx.to_stream();
                     hist::log("to_stream.ret", route as i64, 0, 0, "");
-                    sim::spawn(&format!("sender{}", route), None, move || {
+                    let as_proc = s["proc"].as_bool().unwrap_or(false) && route <= 12;
+                    let crash_at = s["crash_at"].as_u64();
+                    let body = move |tx: IpcSender<Vec<u8>>| {
+                        if let (true, Some(k)) = (as_proc, crash_at) {
+                            // the sending process dies at the k-th system call of its last send (or right after)
+                            if post > 0 {
+                                send_some(&tx, route, 1000, post - 1, len, gap);
+                                sim::arm_crash(8 + route, k);
+                                send_some(&tx, route, 1000 + post as u32 - 1, 1, len, 0);
+                                sim::disarm_crash(8 + route);
+                            }
+                            sim::crash_now();
+                        }
                         send_some(&tx, route, 1000, post, len, gap);
                         if hold {
                             hist::log("hold", route as i64, 0, 0, "");
@@ -176,7 +189,12 @@ mod imp {
                             drop(tx);
                             hist::log("drop.ret", route as i64, 0, 0, "");
                         }
-                    });
+                    };
+                    if as_proc {
+                        super::super::util::spawn_process(&format!("sender{}", route), 8 + route, tx, body);
+                    } else {
+                        sim::spawn(&format!("sender{}", route), None, move || body(tx));
+                    }
                     let manual = s["consumer"].as_str() == Some("manual");
                     let drop_after = s["drop_after"].as_u64();
                     sim::spawn(&format!("consumer{}", route), None, move || {
@@ -230,7 +248,18 @@ mod imp {
         let blocked = sim::settle();
 
         // ------------------------------------------------------------ oracle
-        let evs = hist::events();
+        // a sender whose sim-process died: gone from the crash on, certainly gone once reaped
+        let mut merged: Vec<hist::Ev> = hist::events().to_vec();
+        for e in hist::events() {
+            if e.a >= 8 && (e.op == "crash" || e.op == "crash.reaped") {
+                let mut d = e.clone();
+                d.op = if e.op == "crash" { "drop.inv" } else { "drop.ret" };
+                d.a = e.a - 8;
+                merged.push(d);
+            }
+        }
+        merged.sort_by_key(|e| e.seq);
+        let evs = &merged[..];
         for route in 1..=specs.len() as i64 {
             let ok: Vec<i64> = evs.iter().filter(|e| e.op == "send.ok" && e.a == route).map(|e| e.b).collect();
             let yielded: Vec<&hist::Ev> = evs.iter().filter(|e| e.op == "yield" && e.a == route).collect();
